@@ -141,6 +141,9 @@ UNITS["C07"] = [
        "scalar == 1 at the peak and for the always-on (0,0,0) tent; scalar == 0 at or beyond min/max", stubs=[RANDOM_STATE]),
     _k("c07_scalar_at_missing_axis_reads_default", "fontdrasil", _VAR, ["fontdrasil::variations::VariationRegion::scalar_at"], "bounded",
        "ONE axis in the region, empty location", "valid one-axis region, location without that axis", "axis read as 0: scalar == 1 iff the tent peaks at 0, else 0", stubs=[RANDOM_STATE]),
+    _k("c07_location_from_vec_is_a_map_3", "fontdrasil", "fontdrasil/src/coords.rs", ["fontdrasil::coords::Location::from(Vec)", "fontdrasil::coords::Location::get", "fontdrasil::coords::Location::contains"], "bounded",
+       "exactly 3 (tag, coordinate) pairs, any order, repeated tags allowed; any probe tag", "3 pairs",
+       "representation sorted with unique tags; get(t) == the last coordinate supplied for t, None if absent; contains <=> get is Some  (the location lookup scalar_at and the model rely on)"),
     _k("c07_tent_cover", "fontdrasil", _VAR, [], "complete", "", "", "positive, negative and invalid tents reachable", kind="cover"),
 ]
 
@@ -165,6 +168,11 @@ UNITS["C08"] = [
        "sorted 4-node map", "map(from[k]) == to[first node with that from]", tiers=("thorough",), timeout_s=1800),
     _k("c08_plm_new_sorted_permutation_4", "fontdrasil", _PLM, [_PLMF + "new"], "bounded", "exactly 4 mapping pairs",
        "4 finite pairs", "from sorted ascending; output pairs are a permutation of the input pairs", tiers=("thorough",), timeout_s=1800),
+    _k("c08_user_coord_into_fixed_is_nearest_16_16", "fontdrasil", "fontdrasil/src/coords.rs", ["fontdrasil::coords::<Fixed as From<UserCoord>>::from"], "complete",
+       "every f64 user coordinate in [-32768, 32767]; every i32 16.16 bit pattern in that range; loop-free", "v inside the 16.16 range",
+       "the fvar value is the nearest 16.16 value (|bits - v*65536| <= 0.5); a user coordinate that is a 16.16 value is stored exactly"),
+    _k("c08_normalized_coord_into_f2dot14_is_nearest_2_14", "fontdrasil", "fontdrasil/src/coords.rs", ["fontdrasil::coords::<F2Dot14 as From<NormalizedCoord>>::from", "fontdrasil::coords::NormalizedCoord::to_f2dot14"], "complete",
+       "every f64 in [-1, 1]; loop-free", "v in [-1, 1]", "the avar coordinate is the nearest 2.14 value; -1, 0, +1 are exact; to_f2dot14 and Into agree"),
     _k("c08_avar_default_segment_map_is_required_triple", "fontbe", "fontbe/src/avar.rs", ["fontbe::avar::default_segment_map"], "complete", "no inputs",
        "-", "exactly the three maps -1:-1, 0:0, 1:1 in increasing order"),
     _k("c08_plm_cover", "fontdrasil", _PLM, [], "complete", "", "", "node branch and extrapolation branch reachable with a non-trivial map", kind="cover"),
